@@ -11,6 +11,12 @@ WsAlpha  == {32, 9, 12, 11, 97}
 WsStrs   == SeqsUpTo(WsAlpha, WS_S)
               \cup UNION {{<<b>>, <<b, 97>>, <<97, b>>, <<b, 97, b>>, <<97, b, 97>>, <<b, b, 97, 32>>} : b \in 0..127}
               \cup {<<32>> \o CNT \o <<9>>, CSQRT \o <<10, 13>>, <<12>> \o CCRAB \o <<12, 32>>}
+              \* every byte >= 0x80 at each end (byte-slice functions; not UTF-8)
+              \cup UNION {{<<b>>, <<b, 97>>, <<97, b>>, <<32, b, 32>>} : b \in 128..255}
+              \* valid strings whose first / last character ends in every possible continuation byte, and starts
+              \* with every kind of lead byte (a byte-wise trimmer must not cut inside them)
+              \cup UNION {{<<195, c>>, <<32, 195, c, 32>>, <<97, 195, c>>, <<226, 128, c, 9>>} : c \in 128..191}
+              \cup UNION {{<<ld, 128>>, <<ld, 128, 32>>} : ld \in 194..223}
 MCInputs == PatIn \cup {<<w, <<>>>> : w \in WsStrs}
 
 Vec(o, ss, nn) == [m |-> "StripTrim", op |-> o, s |-> ss, n |-> nn, exp |-> Ref(o, ss, nn)]
